@@ -436,7 +436,16 @@ def leaf_kinds(r):
     for l in r["lv"]:
         if l["p"]:
             ks.add("b" if l["bit"] >= 0 else {"float": "f", "double": "d", "ldouble": "L"}.get(l["t"], "i"))
-    return "".join(sorted(ks)) + ("u" if has_union(r["d"]) else "")
+    # a bit-field (named or not) that ends exactly on an eightbyte boundary (E) / starts on the second eightbyte (S):
+    # the classification loops over the eightbytes a bit-field touches, an off-by-one there shows only in these
+    edge = set()
+    for l in r["lv"]:
+        if l["bit"] >= 0 and l["w"] > 0:
+            if (l["bit"] + l["w"]) % 64 == 0:
+                edge.add("E%d" % ((l["bit"] + l["w"]) // 64))
+            if l["bit"] == 64:
+                edge.add("S")
+    return "".join(sorted(ks)) + ("u" if has_union(r["d"]) else "") + "".join(sorted(edge))
 
 
 def leaf_sig(r):
@@ -916,14 +925,14 @@ def run_static_unit(c2m, rows, base, tag):
 TIERS = {
     "quick": {
         "jobs": [("flat3", "CLayout_mc.cfg", 1, None, None), ("flat2", "CLayout_mc2.cfg", 1, None, None),
-                 ("nest", "CLayout_nest.cfg", 1, None, None), ("ld", "CLayout_ld.cfg", 1, None, None), ("anon", "CLayout_anon.cfg", 1, None, None),
+                 ("nest", "CLayout_nest.cfg", 1, None, None), ("ld", "CLayout_ld.cfg", 1, None, None), ("anon", "CLayout_anon.cfg", 1, None, None), ("edge", "CLayout_edge.cfg", 1, None, None),
                  ("sim", "CLayout_sim.cfg", 1, 1500, 60)],
         "layout_engines": ["-ei"], "bv_engines": ["-ei", "-eg -O2"], "per_group": 2, "mem_sizes": 10, "per_mem": 1,
         "probe": 3000, "static": 2000, "tlc_par": 3,
     },
     "thorough": {
         "jobs": [("flat3", "CLayout_mc.cfg", 1, None, None), ("flat2", "CLayout_mc2.cfg", 1, None, None),
-                 ("nest", "CLayout_nest.cfg", 1, None, None), ("ld", "CLayout_ld.cfg", 1, None, None), ("anon", "CLayout_anon.cfg", 1, None, None),
+                 ("nest", "CLayout_nest.cfg", 1, None, None), ("ld", "CLayout_ld.cfg", 1, None, None), ("anon", "CLayout_anon.cfg", 1, None, None), ("edge", "CLayout_edge.cfg", 1, None, None),
                  ("flat2w", "CLayout_t.cfg", 3, None, None), ("flat3m", "CLayout_t2.cfg", 3, None, None),
                  ("nestw", "CLayout_nest_t.cfg", 3, None, None), ("sim", "CLayout_sim.cfg", 2, 6000, 60)],
         "layout_engines": ["-ei", "-eg -O2"], "bv_engines": ["-ei", "-eg -O0", "-eg -O2"], "per_group": 12, "mem_sizes": 60,
